@@ -1,5 +1,7 @@
 #!/bin/sh
-# MANIFEST.setup_cmd: pre-builds the harness test binaries offline from files on disk.
+# MANIFEST.setup_cmd: warms the Go build cache offline from files on disk (harness test binaries,
+# plain and -race, and the two upf commands some checks start as real processes). Every check
+# rebuilds from /repo's working tree on its own; this only makes those rebuilds incremental.
 set -e
 cd "$(dirname "$0")"
 export GOFLAGS=-mod=mod GOPROXY=off
@@ -8,4 +10,8 @@ mkdir -p .build
 cp -n /repo/go.sum harness/go.sum 2>/dev/null || true
 (cd harness && go test -c -tags verif -o ../.build/props.test ./props/) || \
   (cd harness && GOTOOLCHAIN=local go1.26.8 test -c -tags verif -o ../.build/props.test ./props/)
+(cd harness && go test -c -race -tags verif -o ../.build/props-race.test ./props/) || true
+(GOFLAGS= go build -C /repo -mod=readonly -o /verif/.build/pfcpiface ./cmd/pfcpiface) || true
+(GOFLAGS= go build -C /repo -mod=readonly -o /verif/.build/p4info_code_gen ./cmd/p4info_code_gen) || true
+rm -f .build/props.test .build/props-race.test .build/pfcpiface .build/p4info_code_gen
 echo "setup ok"
